@@ -99,6 +99,8 @@ type bodyOpt struct {
 	//   messages and length prefixes) | empty-between | empty-end | empty-start
 	members string
 	rng     *rand.Rand
+	// grpc-web-text: "" one base64 text for the whole body | per-frame
+	b64 string
 }
 
 // gzipMembers encodes stream as a sequence of gzip members (RFC 1952 2.2)
@@ -193,6 +195,15 @@ func build(c *Case, o bodyOpt) {
 		cuts, empty := memberCuts(o, stream, segs)
 		stream = gzipMembers(stream, cuts, empty)
 		c.Members = o.members
+	case c.T == "grpc-web-text" && o.b64 == "per-frame":
+		// every frame is a base64 text of its own (padded unless its length
+		// is a multiple of three)
+		var txt []byte
+		for _, sg := range segs {
+			txt = append(txt, b64(stream[sg.Start:sg.End])...)
+		}
+		stream = txt
+		c.B64 = o.b64
 	case c.T == "grpc-web-text":
 		stream = b64(stream)
 	}
@@ -265,6 +276,12 @@ func shapeKey(c *Case, ex expect, outcome string) string {
 	}
 	if c.Members != "" {
 		shape += "+gzip-members-" + c.Members
+	}
+	if c.B64 != "" {
+		shape += "+base64-" + c.B64
+	}
+	if c.Poison {
+		shape += "+after-failed-decompression"
 	}
 	if c.SrvOpt != "" || c.PaceMs > 0 {
 		shape += fmt.Sprintf("+srv-%s/paced=%v", c.SrvOpt, c.PaceMs > 0)
@@ -422,6 +439,8 @@ func RunC06(r *mon.Run) {
 	g.timed("laneInterleave", func() { g.laneInterleave() })
 	g.timed("laneJSONStrings", func() { g.laneJSONStrings() })
 	g.timed("laneGzipMembers", func() { g.laneGzipMembers() })
+	g.timed("laneWebTextEncodings", func() { g.laneWebTextEncodings() })
+	g.timed("lanePoisonedPool", func() { g.lanePoisonedPool() })
 	g.timed("laneReal", func() { g.laneReal() })
 	g.timed("laneConcurrent", func() { g.laneConcurrent() })
 
@@ -597,6 +616,75 @@ func (g *gen) laneInterleave() {
 				c := &Case{T: "http", Codec: "httpbody", Shape: "upbidi", Limit: L, Echo: true, EchoMode: md.echo, EchoEvery: md.every, Interfere: md.interfere, Trunc: -1, Msgs: [][]byte{prf(g.rng, n)}}
 				build(c, bodyOpt{})
 				g.sweepSchedules(c, 0, samples)
+			}
+		}
+	}
+}
+
+// laneWebTextEncodings: grpc-web-text request bodies whose frames are each a
+// base64 text of their own (with padding), coalesced into few reads, read in
+// fixed small sizes, byte-wise and split at every offset.
+func (g *gen) laneWebTextEncodings() {
+	r := g.r
+	tc := tcombo{"grpc-web-text", "proto", ""}
+	seqs := [][]string{{"T", "T"}, {"E", "E", "E"}, {"T", "E", "D1", "D2", "D3"}, {"D40", "T", "X", "D9"}, {"D1", "D1"}, {"D300", "E", "T"}}
+	if r.Thorough() {
+		seqs = append(seqs, []string{"E"}, []string{"T"}, []string{"D2", "D3", "D4", "D5", "D6", "D7"}, []string{"H0", "I3", "T"}, []string{"D5000", "T", "D126"})
+	}
+	idx := 0
+	for _, kinds := range seqs {
+		for _, mode := range []string{"cs", "bidi", "bidi-long"} {
+			idx++
+			c := &Case{T: tc.T, Codec: tc.Codec, Shape: "cs", Trunc: -1}
+			c.Msgs = g.msgs(kinds, tc, 0)
+			switch mode {
+			case "cs":
+				c.Reply = [][]byte{g.reply(len(kinds))}
+			case "bidi":
+				c.Shape, c.Echo = "bidi", true
+			case "bidi-long":
+				c.Shape, c.Echo, c.EchoMode = "bidi", true, "long"
+			}
+			build(c, bodyOpt{b64: "per-frame"})
+			n := len(c.Body)
+			g.sweepSchedules(c, r.Pick(0, 10), r.Pick(2, 6))
+			// fixed-size reads
+			for _, k := range []int{2, 3, 4, 5, 7, 8, 12, 4096} {
+				var cuts []int
+				for left := n; left > 0; left -= k {
+					cuts = append(cuts, min(k, left))
+				}
+				d := clone(c)
+				d.Cuts, d.EOFWithData, d.Sched = cuts, idx%2 == 0, "fixed-size-reads"
+				g.run(d)
+			}
+			if n <= r.Pick(64, 400) {
+				for t := 1; t < n; t++ {
+					d := clone(c)
+					d.Cuts, d.EOFWithData, d.Sched = []int{t}, t%2 == 0, "split-at-every-offset"
+					g.run(d)
+				}
+			}
+		}
+	}
+}
+
+// lanePoisonedPool: the call before the judged stream, on the same mux,
+// failed while decompressing a message (gzip damaged after it had produced
+// output). The judged streams are ordinary gzip streams.
+func (g *gen) lanePoisonedPool() {
+	r := g.r
+	rounds := r.Pick(6, 40)
+	for round := 0; round < rounds; round++ {
+		for _, tc := range []tcombo{{"grpc", "gzip", ""}} {
+			for _, t := range []string{"grpc", "grpc-web"} {
+				c := &Case{T: t, Codec: tc.Codec, Shape: []string{"cs", "bidi"}[round%2], Echo: round%2 == 1, Trunc: -1, Poison: true, Sched: "one-read"}
+				c.Msgs = g.msgs([]string{"T", "E", "X", "T", "D9", "T", "E", "T"}, tc, 0)
+				if c.Shape == "cs" {
+					c.Reply = [][]byte{g.reply(8)}
+				}
+				build(c, bodyOpt{})
+				g.run(c)
 			}
 		}
 	}
